@@ -3,7 +3,6 @@ package core
 import (
 	"encoding/json"
 	"fmt"
-	"reflect"
 	"testing"
 
 	"github.com/koron-go/z80"
@@ -74,6 +73,22 @@ func c15Play(c *c15Case) (msg string, nt bool) {
 				if a >= c.Len {
 					nt = true
 				}
+			case "PutSelf":
+				// the block is a piece of the memory itself (op.V = source offset, op.W = length): a move inside the store
+				src, n := op.V, op.W
+				if src+n > c.Len || a+n > c.Len {
+					continue
+				}
+				tmp := append([]uint8(nil), model[src:src+n]...)
+				dm.Put(uint16(a), dm[src:src+n]...)
+				copy(model[a:a+n], tmp)
+				for k := 0; k < n; k++ {
+					touched[a+k] = true
+					touched[src+k] = true
+				}
+				if src < a && a < src+n {
+					nt = true
+				}
 			case "Put":
 				if a+len(op.Data) > c.Len {
 					continue // outside the property's domain (block must lie inside the slice)
@@ -83,8 +98,12 @@ func c15Play(c *c15Case) (msg string, nt bool) {
 					model[a+k] = uint8(b)
 					touched[a+k] = true
 				}
-				if len(r) != len(dm) || (len(r) > 0 && &r[0] != &dm[0]) {
-					return fmt.Sprintf("op %d: Put did not return the receiver", i), nt
+				// the value Put returns is used for chaining (MapMemory{}.Put(...).Put(...)): it must hold the block too;
+				// that it is the receiver itself is not demanded
+				for k, b := range op.Data {
+					if r.Get(uint16(a+k)) != uint8(b) {
+						return fmt.Sprintf("op %d: the value returned by Put does not hold the block", i), nt
+					}
 				}
 			}
 			if m := check(i); m != "" {
@@ -139,8 +158,10 @@ func c15Play(c *c15Case) (msg string, nt bool) {
 				if cleared {
 					nt = true
 				}
-				if reflect.ValueOf(r).Pointer() != reflect.ValueOf(pool[v]).Pointer() { // returned value must be the same store
-					return fmt.Sprintf("op %d: Put did not return the receiver", i), nt
+				for k, b := range op.Data { // the returned value (used for chaining) must hold the block; the receiver is read back below
+					if r.Get(a+uint16(k)) != uint8(b) {
+						return fmt.Sprintf("op %d: the value returned by Put does not hold the block", i), nt
+					}
 				}
 				if len(op.Data) > 0 && int(a)+len(op.Data) > 65536 {
 					nt = true
@@ -252,11 +273,18 @@ func TestC15(t *testing.T) {
 			c.Len = rapid.OneOf(rapid.SampledFrom([]int{0, 1, 2, 255, 256, 257, 65535, 65536}), rapid.IntRange(0, 65536)).Draw(t, "len")
 			addr := rapid.OneOf(rapid.SampledFrom([]int{0, 1, c.Len - 2, c.Len - 1, c.Len, c.Len + 1, 65535, 65534}), rapid.IntRange(0, 65535))
 			for i := 0; i < nops; i++ {
-				op := c15Op{Op: rapid.SampledFrom([]string{"Set", "Get", "Put"}).Draw(t, "op")}
+				op := c15Op{Op: rapid.SampledFrom([]string{"Set", "Set", "Get", "Put", "Put", "PutSelf"}).Draw(t, "op")}
 				op.Addr = addr.Draw(t, "addr") & 0xffff
 				switch op.Op {
 				case "Set":
 					op.Data = byteData(1)
+				case "PutSelf":
+					// overlapping moves in both directions, a few bytes apart
+					op.W = rapid.IntRange(1, 12).Draw(t, "n")
+					op.V = op.Addr + rapid.IntRange(-8, 8).Draw(t, "delta")
+					if op.V < 0 {
+						op.V = 0
+					}
 				case "Put":
 					room := c.Len - op.Addr
 					if room < 0 {
@@ -296,8 +324,14 @@ func TestC15(t *testing.T) {
 					for j := 0; j < n; j++ {
 						op.Data = append(op.Data, val.Draw(t, "val"))
 					}
-					if rapid.IntRange(0, 7).Draw(t, "longPut") == 0 {
+					switch rapid.IntRange(0, 11).Draw(t, "longPut") {
+					case 0:
 						op.Data = append(op.Data, byteData(rapid.IntRange(1, 6).Draw(t, "more"))...)
+					case 1: // a big block (also onto an empty or just cleared value)
+						n := rapid.SampledFrom([]int{255, 256, 257, 600, 1024}).Draw(t, "big")
+						for j := 0; j < n; j++ {
+							op.Data = append(op.Data, (j*7+op.Addr)&0xff)
+						}
 					}
 				}
 				c.Ops = append(c.Ops, op)
@@ -318,7 +352,7 @@ func TestC15(t *testing.T) {
 				}
 			}
 			col.Distinct(h)
-			if col.WantSample(h) && len(c.Ops) <= 8 {
+			if col.WantSample(h) && len(c.Ops) <= 8 && len(c.Ops[0].Data) < 32 {
 				col.Sample(h, c)
 			}
 		}
